@@ -755,9 +755,10 @@ def model_update(kind, d, other, ignore):
     return (seqs.keep(O1, seqs.setof(O2)), seqs.keep(P1, seqs.setof(P2)), lambda a, b: And(Select(C1, a, b), Select(C2, a, b)))
 
 
-def _update(kind, via_operator=False):
+def _update(kind, via_operator=False, aliased=False):
     def body(path):
-        d, other = make_definition(path, 'self'), make_definition(path, 'other')
+        d = make_definition(path, 'self')
+        other = d if aliased else make_definition(path, 'other')      # aliased: d.union_update(d) / d |= d
         V1, V2 = (d.O0, d.P0, d.C0), (other.O0, other.P0, other.C0)
         ignore = path.fresh_bool('ignore_conflicts')
         g = dict(lib.builtins(), ensure_compatible=ensure_compatible_contract(V1, V2))
@@ -792,7 +793,13 @@ def _update(kind, via_operator=False):
             d_fields = {k: v for k, v in d.fields.items() if k in ('_objects', '_properties', '_pairs')}
             path.oblige('post/WF', 'post', And(nodup(O), nodup(P), inv_pairs(O, P, C)))
             path.oblige('frame/containers-kept', 'frame', BoolVal((d_fields['_objects'], d_fields['_properties'], d_fields['_pairs']) == d.objs0))
-            post_unchanged(path, other, 'other')
+            if aliased:
+                # x op x = x: the definition is unchanged
+                path.assume([seqs.st_fold_self(d.O0), seqs.st_fold_self(d.P0)])
+                path.oblige('post/aliased-call-leaves-the-definition-unchanged', 'post', And(O == d.O0, P == d.P0))
+                cells_equal(path, 'post/aliased-cells-unchanged', C, lambda a, b: Select(d.C0, a, b))
+            else:
+                post_unchanged(path, other, 'other')
         return env, {'globals': g}, finish
     return body
 
@@ -887,6 +894,10 @@ for _k in ('union', 'intersection'):
     register(Unit('definitions.%s' % _k, D, 'MutableMixin.%s' % _k, _unit(_derived(_k)),
                   assumptions=['contracts of Triple.copy and %s_update (units definitions.copy / definitions.%s_update)' % (_k, _k)],
                   linkage=[('concepts.Definition.%s' % _k, None), ('concepts.Definition.__%s__' % ('or' if _k == 'union' else 'and'), None)]))
+for _k in ('union', 'intersection'):
+    register(Unit('definitions.%s_update.aliased' % _k, D, 'MutableMixin.%s_update' % _k, _unit(_update(_k, aliased=True)),
+                  assumptions=ASSUME + ['other is self (d.%s_update(d), d %s= d)' % (_k, '|' if _k == 'union' else '&')],
+                  linkage=[('concepts.Definition.%s_update' % _k, None)]))
 register(Unit('definitions.__ior__', D, 'MutableMixin.__ior__', _unit(_update('union', True)),
               assumptions=['contract of union_update'], linkage=[('concepts.Definition.__ior__', None)]))
 register(Unit('definitions.__iand__', D, 'MutableMixin.__iand__', _unit(_update('intersection', True)),
